@@ -30,6 +30,10 @@ def isFalse(val):
 def isTrue(val):
     return not isFalse(val)
 
+class _Delim(str):
+    """An unescaped delimiter. Tells it apart from equal, escaped text."""
+    __slots__ = ()
+
 class StringParser:
     """Utility class for complex string parsing/manipulation"""
 
@@ -71,7 +75,7 @@ class StringParser:
         # directly on delimiter?
         if self.text[i] in delim:
             self.index = i+1
-            return self.text[i]
+            return _Delim(self.text[i])
 
         # scan
         tok = []
@@ -127,8 +131,10 @@ class StringParser:
         """
         s = []
         tok = self.nextToken(delim)
-        while tok not in delim:
-            if tok == '"':
+        while (tok is not None and not isinstance(tok, _Delim)) or tok not in delim:
+            if tok is not None and not isinstance(tok, _Delim):
+                s.append(tok)
+            elif tok == '"':
                 s.append(self.getString(['"'], False, subst))
             elif tok == '\'':
                 s.append(self.getSingleQuoted())
